@@ -657,10 +657,14 @@ def run_case(desc, want_lines=True, trace=False):
             exp.append(expected_clause(v, strict, False))
         if events is not None:
             from harness import c08_quick
-            ql, qe = c08_quick.render_events(r, before, events, k, c)
+            qmoves, bmoves = events
+            ql, qe = c08_quick.render_events(r, before, qmoves, k, c)
             checks.append(ql)
             exp.append(qe)
-            res['quick_events'] = len(events)
+            checks.append(c08_quick.render_bins(r, before, bmoves))
+            exp.append('ok')
+            res['quick_events'] = len(qmoves)
+            res['bin_events'] = len(bmoves)
         lines = ['reset'] + r.defs + checks
         res['lines'] = lines
         res['nprefix'] = 1 + len(r.defs)
@@ -925,6 +929,9 @@ def process(ck: Check, results):
         ck.coverage['traces_validated_against_impl'] += 1
         if ln.startswith('check'):
             ck.bump('lean_verdicts', out)
+        elif ln.startswith('bins'):
+            ck.bump('binspec_verdicts', out.split(' ')[0])
+            ck.bump('binspec_moves', n=r.get('bin_events', 0))
         else:
             from harness import c08_quick
             ck.bump('quickspec_verdicts', out.split(' ')[0])
@@ -939,6 +946,9 @@ def process(ck: Check, results):
             if kind == 'quick':
                 # "illegal <move index>" / "stuck <n>" / "groups-differ"
                 sig = f'quickspec-{out.split(" ")[0]}:{pname}'
+            if kind == 'bins':
+                # illegal / bookkeeping / drain-stuck / unplaced <index>
+                sig = f'binspec-{out.split(" ")[0]}:{pname}'
             strict = PASS_INFO[pname][0]
             if out == 'violated unblocked-op' or (
                     strict and 'unblocked' in r['verdicts']):
